@@ -1297,3 +1297,242 @@ Lemma dict_version_loses_occurrences : exists rl1 rl2,
   flatten_attr_dict (fun x => x) pos_tree rl2 false [s "k"; s "m"] None [(s "../q1", None); (s "/m/q1", None)]
      = Some (s "m__q1").
 Proof. eexists. eexists. splits; vm_compute; reflexivity. Qed.
+
+(* ====================================================================== third pass *)
+Lemma str_eqb_sym : forall a b, str_eqb a b = str_eqb b a.
+Proof.
+  intros a b. destruct (str_eqb a b) eqn:E.
+  - apply str_eqb_eq in E. subst. symmetry. apply str_eqb_refl.
+  - destruct (str_eqb b a) eqn:E2; [|reflexivity]. apply str_eqb_eq in E2. subst. rewrite str_eqb_refl in E. discriminate.
+Qed.
+
+Lemma attr_get_set : forall k k' v d,
+  assoc_str k (attr_set k' v d) = if str_eqb k' k then Some v else assoc_str k d.
+Proof.
+  induction d as [|[a b] d IH]; simpl.
+  - destruct (str_eqb k' k); reflexivity.
+  - destruct (str_eqb a k') eqn:E1.
+    + apply str_eqb_eq in E1. subst a. simpl. destruct (str_eqb k' k); reflexivity.
+    + simpl. destruct (str_eqb a k) eqn:E2.
+      * apply str_eqb_eq in E2. subst a. rewrite str_eqb_sym, E1. reflexivity.
+      * exact IH.
+Qed.
+
+Lemma assoc_str_notin : forall k (e : attrs), ~ In k (map fst e) -> assoc_str k e = None.
+Proof.
+  induction e as [|[a b] e IH]; intros N; [reflexivity|]. simpl.
+  destruct (str_eqb a k) eqn:E.
+  - apply str_eqb_eq in E. subst. exfalso. apply N. left. reflexivity.
+  - apply IH. intro I. apply N. right. assumption.
+Qed.
+
+Lemma update_get : forall k e d, NoDup (map fst e) ->
+  assoc_str k (dict_update d e) = match assoc_str k e with Some x => Some x | None => assoc_str k d end.
+Proof.
+  unfold dict_update. induction e as [|[a b] e IH]; intros d ND; [reflexivity|].
+  simpl in *. inversion ND as [|? ? NI ND']; subst. rewrite (IH _ ND'). rewrite attr_get_set.
+  destruct (str_eqb a k) eqn:E.
+  - apply str_eqb_eq in E. subst a. rewrite (assoc_str_notin k e NI). reflexivity.
+  - reflexivity.
+Qed.
+
+Lemma attr_set_keys : forall k v d, NoDup (map fst d) -> NoDup (map fst (attr_set k v d)) /\
+  forall x, In x (map fst (attr_set k v d)) -> x = k \/ In x (map fst d).
+Proof.
+  induction d as [|[a b] d IH]; intros ND; simpl.
+  - split; [constructor; [intros []|constructor]|intros x [<-|[]]; left; reflexivity].
+  - inversion ND as [|? ? NI ND']; subst. destruct (str_eqb a k) eqn:E.
+    + apply str_eqb_eq in E. subst a. simpl. split; [exact ND|]. intros x H. right. exact H.
+    + destruct (IH ND') as [N2 S2]. simpl. split.
+      * constructor; [|assumption]. intros I. destruct (S2 _ I) as [->|I'];
+          [rewrite str_eqb_refl in E; discriminate|contradiction].
+      * intros x [<-|I]; [right; left; reflexivity|]. destruct (S2 _ I) as [->|I']; [left; reflexivity|right; right; assumption].
+Qed.
+
+Lemma update_keys : forall e d, NoDup (map fst d) -> NoDup (map fst (dict_update d e)).
+Proof.
+  unfold dict_update. induction e as [|[a b] e IH]; intros d ND; [assumption|]. simpl.
+  apply IH. apply (proj1 (attr_set_keys a b d ND)).
+Qed.
+
+Definition wf_fa (fa : list (list str * attrs)) : Prop := Forall (fun pe => NoDup (map fst (snd pe))) fa.
+
+Lemma gattr_lookup_wf : forall fa p e, wf_fa fa -> gattr_lookup p fa = Some e -> NoDup (map fst e).
+Proof.
+  induction fa as [|[q e'] fa IH]; intros p e W H; simpl in H; [discriminate|].
+  inversion W; subst. destruct (list_eqb str_eqb q p); [inversion H; subst; assumption|eapply IH; eassumption].
+Qed.
+
+(* the attribute of that name in the nearest group at or above groups = pre ++ rest, below pre *)
+Fixpoint nearest_group_attr (fa : list (list str * attrs)) (pre rest : list str) (k : str) : option str :=
+  match rest with
+  | [] => None
+  | g :: r =>
+      match nearest_group_attr fa (pre ++ [g]) r k with
+      | Some x => Some x
+      | None => match gattr_lookup (pre ++ [g]) fa with Some e => assoc_str k e | None => None end
+      end
+  end.
+
+Lemma group_attrs_down_get : forall fa k rest pre acc, wf_fa fa ->
+  assoc_str k (group_attrs_down fa pre rest acc) =
+    match nearest_group_attr fa pre rest k with Some x => Some x | None => assoc_str k acc end.
+Proof.
+  intros fa k. induction rest as [|g r IH]; intros pre acc W; [reflexivity|].
+  cbn [group_attrs_down nearest_group_attr]. rewrite (IH _ _ W).
+  destruct (nearest_group_attr fa (pre ++ [g]) r k); [reflexivity|].
+  destruct (gattr_lookup (pre ++ [g]) fa) as [e|] eqn:L; [|reflexivity].
+  rewrite (update_get k e acc (gattr_lookup_wf fa _ e W L)). reflexivity.
+Qed.
+
+Lemma group_attrs_down_keys : forall fa rest pre acc, NoDup (map fst acc) ->
+  NoDup (map fst (group_attrs_down fa pre rest acc)).
+Proof.
+  induction rest as [|g r IH]; intros pre acc ND; [assumption|]. cbn [group_attrs_down].
+  apply IH. destruct (gattr_lookup (pre ++ [g]) fa); [apply update_keys|]; assumption.
+Qed.
+
+(* GROUP ATTRIBUTES: a property of the field read from a grouped dataset is the data variable's
+   own attribute if it has one, else the attribute of the NEAREST enclosing non-root group that
+   has one, else the global attribute *)
+Lemma field_props_get : forall glob fa groups vattrs k,
+  wf_fa fa -> NoDup (map fst vattrs) ->
+  assoc_str k (field_props glob fa groups vattrs) =
+    match assoc_str k vattrs with
+    | Some x => Some x
+    | None => match nearest_group_attr fa [] groups k with
+              | Some x => Some x
+              | None => assoc_str k glob
+              end
+    end.
+Proof.
+  intros glob fa groups vattrs k W NV. unfold field_props, group_attrs.
+  rewrite (update_get k vattrs _ NV). destruct (assoc_str k vattrs); [reflexivity|].
+  rewrite update_get by (apply group_attrs_down_keys; constructor).
+  rewrite (group_attrs_down_get fa k groups [] [] W). simpl.
+  destruct (nearest_group_attr fa [] groups k); reflexivity.
+Qed.
+
+Lemma recorded_group_attrs_spec : forall fa groups vattrs k, wf_fa fa ->
+  In k (map fst (recorded_group_attrs fa groups vattrs)) <-> nearest_group_attr fa [] groups k <> None.
+Proof.
+  intros fa groups vattrs k W. unfold recorded_group_attrs. rewrite map_map. simpl.
+  pose proof (group_attrs_down_get fa k groups [] [] W) as G. fold (group_attrs fa groups) in G. simpl in G.
+  split.
+  - intros I N. rewrite N in G.
+    assert (X : exists v, assoc_str k (group_attrs fa groups) = Some v).
+    { destruct (assoc_str_in_keys k (group_attrs fa groups) I) as [f [A _]]. exists f. exact A. }
+    destruct X as [v X]. congruence.
+  - intros N. destruct (nearest_group_attr fa [] groups k) as [x|] eqn:E; [|contradiction].
+    clear N. revert G. generalize (group_attrs fa groups). induction a as [|[a b] l IH]; simpl; [discriminate|].
+    destruct (str_eqb a k) eqn:Ek; [apply str_eqb_eq in Ek; subst; intros _; left; reflexivity|].
+    intros H. right. apply IH. exact H.
+Qed.
+
+Example group_attrs_nonvacuous :
+  let fa := [([s "a"], [(s "comment", s "A"); (s "source", s "S")]); ([s "a"; s "b"], [(s "comment", s "B")])] in
+  wf_fa fa /\
+  assoc_str (s "comment") (field_props [(s "comment", s "G")] fa [s "a"; s "b"] []) = Some (s "B") /\
+  assoc_str (s "source") (field_props [(s "comment", s "G")] fa [s "a"; s "b"] []) = Some (s "S") /\
+  assoc_str (s "comment") (field_props [(s "comment", s "G")] fa [s "a"] []) = Some (s "A") /\
+  assoc_str (s "comment") (field_props [(s "comment", s "G")] fa [s "c"] []) = Some (s "G") /\
+  assoc_str (s "comment") (field_props [(s "comment", s "G")] fa [s "a"; s "b"] [(s "comment", s "V")]) = Some (s "V").
+Proof.
+  intros fa. splits; try reflexivity.
+  repeat constructor; simpl; intuition discriminate.
+Qed.
+
+(* the upward variant lets the OUTER group win *)
+Lemma group_attrs_up_outer_wins :
+  let fa := [([s "a"], [(s "comment", s "A")]); ([s "a"; s "b"], [(s "comment", s "B")])] in
+  assoc_str (s "comment") (group_attrs fa [s "a"; s "b"]) = Some (s "B") /\
+  assoc_str (s "comment") (group_attrs_up fa (rev [s "a"; s "b"]) []) = Some (s "A").
+Proof. split; reflexivity. Qed.
+
+(* ------------------------------------------------------------------ h5netcdf: get_dims *)
+Lemma mem_remove_all : forall n d l, mem_str n (remove_all d l) = if str_eqb n d then false else mem_str n l.
+Proof.
+  induction l as [|y l IH]; simpl; [destruct (str_eqb n d); reflexivity|].
+  destruct (str_eqb d y) eqn:E.
+  - apply str_eqb_eq in E. subst y. rewrite IH. destruct (str_eqb n d); reflexivity.
+  - simpl. rewrite IH. destruct (str_eqb n d) eqn:E2; [|reflexivity].
+    apply str_eqb_eq in E2. subst n. rewrite E. reflexivity.
+Qed.
+
+Lemma pget_pset : forall n d v acc, pget n (pset d v acc) = if str_eqb d n then Some v else pget n acc.
+Proof.
+  induction acc as [|[a b] acc IH]; simpl.
+  - destruct (str_eqb d n); reflexivity.
+  - destruct (str_eqb a d) eqn:E1.
+    + apply str_eqb_eq in E1. subst a. simpl. destruct (str_eqb d n); reflexivity.
+    + simpl. destruct (str_eqb a n) eqn:E2.
+      * apply str_eqb_eq in E2. subst a. rewrite str_eqb_sym, E1. reflexivity.
+      * exact IH.
+Qed.
+
+Lemma h5_step_spec : forall path n gd names acc,
+  let st := h5_step true path gd (names, acc) in
+  if mem_str n names && mem_str n gd
+  then mem_str n (fst st) = false /\ pget n (snd st) = Some path
+  else mem_str n (fst st) = mem_str n names /\ pget n (snd st) = pget n acc.
+Proof.
+  intros path n. unfold h5_step. induction gd as [|d r IH]; intros names acc.
+  - simpl. rewrite andb_false_r. split; reflexivity.
+  - cbn [fold_left fst snd]. destruct (mem_str d names) eqn:Md.
+    + specialize (IH (remove_all d names) (pset d path acc)). cbv zeta in *.
+      rewrite mem_remove_all, pget_pset in IH. cbn [mem_str].
+      destruct (str_eqb n d) eqn:End.
+      * apply str_eqb_eq in End. subst d. rewrite Md. simpl orb. simpl andb. cbv iota.
+        simpl andb in IH. cbv iota in IH. rewrite str_eqb_refl in IH. exact IH.
+      * simpl orb. rewrite (str_eqb_sym d n), End in IH. exact IH.
+    + specialize (IH names acc). cbv zeta in *. cbn [mem_str].
+      destruct (str_eqb n d) eqn:End.
+      * apply str_eqb_eq in End. subst d. rewrite Md in *. simpl andb in *. exact IH.
+      * simpl orb. exact IH.
+Qed.
+
+Lemma h5_walk_spec : forall root n rp names acc,
+  pget n (h5_walk true root rp names acc) =
+    if mem_str n names
+    then match nc_lookup_dim root rp n with Some q => Some q | None => pget n acc end
+    else pget n acc.
+Proof.
+  intros root n. induction rp as [|x rp IH]; intros names acc.
+  - cbn [h5_walk nc_lookup_dim]. destruct (find_group root (rev [])) as [g|]; [|destruct (mem_str n names); reflexivity].
+    pose proof (h5_step_spec (rev []) n (gdims g) names acc) as S. cbv zeta in S.
+    destruct (mem_str n names); simpl andb in S.
+    + destruct (mem_str n (gdims g)); destruct S as [_ S]; rewrite S; reflexivity.
+    + destruct S as [_ S]. exact S.
+  - cbn [h5_walk nc_lookup_dim]. destruct (find_group root (rev (x :: rp))) as [g|]; [|destruct (mem_str n names); reflexivity].
+    pose proof (h5_step_spec (rev (x :: rp)) n (gdims g) names acc) as S. cbv zeta in S.
+    destruct (fst (h5_step true (rev (x :: rp)) (gdims g) (names, acc))) as [|y names'] eqn:Fs.
+    + destruct (mem_str n names); simpl andb in S.
+      * destruct (mem_str n (gdims g)); destruct S as [S1 S2]; [rewrite S2; reflexivity|simpl in S1; discriminate].
+      * destruct S as [_ S]. exact S.
+    + rewrite IH. destruct (mem_str n names); simpl andb in S.
+      * destruct (mem_str n (gdims g)); destruct S as [S1 S2]; rewrite S1, S2; reflexivity.
+      * destruct S as [S1 S2]. rewrite S1, S2. reflexivity.
+Qed.
+
+(* H5NETCDF: the flattener gives every dimension name of a variable the nearest enclosing
+   definition - the dimension netCDF itself binds the name to - also when the variable spans a
+   dimension twice (repaired code) *)
+Lemma h5_get_dims_nearest : forall root rp vdims,
+  h5_get_dims root rp vdims = map (nc_lookup_dim root rp) vdims.
+Proof.
+  intros root rp vdims. unfold h5_get_dims, h5_get_dims_gen. apply map_ext_in. intros n I.
+  rewrite h5_walk_spec. apply mem_str_in in I. rewrite I. destruct (nc_lookup_dim root rp n); reflexivity.
+Qed.
+
+(* before C11-fix3-1: v(x, x) in /g/h with x defined in / and in /g was given the root dimension *)
+Lemma h5_get_dims_old_repeated : exists root,
+  h5_get_dims_old root [s "h"; s "g"] [s "x"; s "x"] = [Some []; Some []] /\
+  h5_get_dims root [s "h"; s "g"] [s "x"; s "x"] = [Some [s "g"]; Some [s "g"]] /\
+  h5_get_dims_old root [s "h"; s "g"] [s "x"] = [Some [s "g"]].
+Proof. exists (G [] [s "x"] [] [G (s "g") [s "x"] [] [G (s "h") [] [] []]]). splits; reflexivity. Qed.
+
+(* the merged loop (seeded change s6): the outermost definition wins *)
+Lemma h5_merged_outer_wins : exists root,
+  pget (s "x") (h5_walk_merged root [s "g"] [s "x"] []) = Some [] /\
+  h5_get_dims root [s "g"] [s "x"] = [Some [s "g"]].
+Proof. exists (G [] [s "x"] [] [G (s "g") [s "x"] [] []]). split; reflexivity. Qed.
